@@ -584,7 +584,24 @@ class Analyser:
                 return [(s, s.new(Itv(iv.lo, iv.hi, iv.lo_open, iv.hi_open, False, True) if iv.ge0() or iv.le0() else Itv(isint=True)))]
             return self.call_args_then(st, node, go)
         if fn == 'abs':
-            return self.call_args_then(st, node, lambda s, args, kw: [(s, s.new(I.absv(s.iv(args[0]))))])
+            def go_abs(s, args, kw):
+                a = args[0]
+                iv = s.iv(a)
+                if iv.empty or iv.ge0():
+                    return [(s, a)]
+                if iv.le0():
+                    return [(s, s.new(I.neg(iv), d=('neg', a)))]
+                # case split on the sign so that later facts about |x| refine x itself
+                out = []
+                s1 = s.fork()
+                s1.val[a] = Itv(0.0, iv.hi, False, iv.hi_open, iv.nan, iv.isint).norm()
+                out.append((s1, a))
+                s2 = s
+                neg_part = Itv(iv.lo, 0.0, iv.lo_open, True, False, iv.isint).norm()
+                s2.val[a] = neg_part
+                out.append((s2, s2.new(I.neg(neg_part), d=('neg', a))))
+                return out
+            return self.call_args_then(st, node, go_abs)
         if fn in ('max', 'min'):
             def go(s, args, kw):
                 r = s.iv(args[0])
@@ -977,6 +994,12 @@ class Analyser:
                 cur = s.iv(atom)
                 m = I.meet(Itv(cur.lo, cur.hi, cur.lo_open, cur.hi_open, False, cur.isint, cur.empty), Itv(biv.lo, biv.hi, biv.lo_open, biv.hi_open))
                 s.val[atom] = Itv(m.lo, m.hi, m.lo_open, m.hi_open, cur.nan and keepnan, cur.isint, m.empty).norm()
+                # a fact about -u is a fact about u
+                d = s.defs.get(atom)
+                if d and d[0] == 'neg' and not s.val[atom].empty:
+                    cu = s.iv(d[1])
+                    mu = I.meet(Itv(cu.lo, cu.hi, cu.lo_open, cu.hi_open, False, cu.isint, cu.empty), I.neg(Itv(m.lo, m.hi, m.lo_open, m.hi_open)))
+                    s.val[d[1]] = Itv(mu.lo, mu.hi, mu.lo_open, mu.hi_open, cu.nan and keepnan, cu.isint, mu.empty).norm()
             if eff == '<':
                 ref(a, bound(ib, 'upper_strict')); ref(b, bound(ia, 'lower_strict'))
             elif eff == '<=':
